@@ -1607,6 +1607,7 @@ class Engine:
             saved = list(st.pc)
             sub.pc = st.pc
             st.pc.append(cond)
+            self.instantiate_at(st, [sub.env[nm].t for nm in names])
             for u in using:
                 self.hint(sub, u, node, kind)           # intermediate steps about the same fresh constants
             self.specmode += 1
@@ -1619,6 +1620,36 @@ class Engine:
             # forget everything about the fresh constants; assume the generalised statement
             st.pc[:] = saved
             st.pc.append(self.spec_bool(h[13:].strip(), st))
+            return
+        if h.startswith('inv_instance '):
+            # an instance of a loop-invariant clause that was ASSUMED at the head of the current iteration, taken at the current values
+            # of its bound-variable names (typically the fresh constants of an enclosing forall_intro): pure instantiation, done
+            # by the engine instead of the solver's e-matching (which is sensitive to the order of operands inside index sums)
+            text = h[13:].strip()
+            clauses = st.env.get('__inv_clauses__') or []
+            if ' '.join(text.split()) not in [' '.join(c.split()) for c in clauses]:
+                raise ContractError('inv_instance: not a clause of the enclosing loop invariant: ' + text[:80])
+            call = ast.parse(text, mode='eval').body
+            if not (isinstance(call, ast.Call) and getattr(call.func, 'id', '') == 'forall' and len(call.args) == 3):
+                raise ContractError('inv_instance expects forall((vars), cond, body)')
+            names = [x.id for x in (call.args[0].elts if isinstance(call.args[0], ast.Tuple) else [call.args[0]])]
+            o = st.env.get('__iter_start__')
+            if o is None:
+                raise ContractError('inv_instance outside a loop body')
+            sub = St(dict(o.env), o.heap, st.pc)
+            for nm in names:
+                if nm not in st.env or not isinstance(st.env[nm], SV):
+                    raise ContractError(f'inv_instance: {nm} is not bound to a value here')
+                sub.env[nm] = st.env[nm]
+            self.specmode += 1
+            try:
+                cond = self.truth(self.ev(call.args[1], sub))
+                body = self.truth(self.ev(call.args[2], sub))
+            finally:
+                self.specmode -= 1
+            cond = z3.BoolVal(cond) if isinstance(cond, bool) else cond
+            body = z3.BoolVal(body) if isinstance(body, bool) else body
+            st.pc.append(z3.Implies(cond, body))
             return
         if h.startswith('let '):
             nm, ex = h[4:].split('=', 1)
@@ -1633,6 +1664,40 @@ class Engine:
             return
         g = self.spec_bool(h, st)
         self.oblige(st, kind, g, node, label=h)
+
+    def instantiate_at(self, st, consts):
+        """instances of the universally quantified hypotheses (one or two integer variables) at the given constants, added to the
+        path condition: plain instantiation done by the engine, because the solver's e-matching on triggers that contain index sums
+        (a[off + q]) depends on operand order and is not stable from run to run"""
+        out = []
+        seen = 0
+
+        def walk(f):
+            nonlocal seen
+            if z3.is_and(f):
+                for c in f.children():
+                    walk(c)
+                return
+            if not (z3.is_quantifier(f) and f.is_forall()):
+                return
+            n = f.num_vars()
+            if n > 2 or any(f.var_sort(k) != z3.IntSort() for k in range(n)):
+                return
+            seen += 1
+            body = f.body()
+            if n == 1:
+                for c in consts:
+                    out.append(z3.substitute_vars(body, c))
+            else:
+                for a in consts:
+                    for b in consts:
+                        out.append(z3.substitute_vars(body, b, a))
+        for f in list(st.pc):
+            walk(f)
+            if len(out) > 4000:
+                break
+        for g in out:
+            st.pc.append(g)
 
     def is_ignored(self, s):
         if isinstance(s, ast.Expr) and isinstance(s.value, ast.Constant):
